@@ -19,5 +19,9 @@ CONSTANTS
   Owner <- OwnP3
   AnyTurn = FALSE
   MaxLen = 400
+  JobLast = FALSE
+  JobAt = {}
+  OpAt = {}
+  WakeAt = {}
 SPECIFICATION GSpec
 INVARIANTS EmitInv
